@@ -9,7 +9,6 @@ use crate::run::*;
 use crate::sc::{bits_of, Sc};
 use crate::spy::SpyCtl;
 use crate::twin::*;
-use crate::zoo::*;
 use nalgebra::DVector;
 use serde_json::json;
 use std::sync::Arc;
